@@ -305,7 +305,7 @@ theorem query_object_explode_roundtrip (fl : Flavour) (hfl : fl.absentAware = fa
       decodeStyled fl ⟨.query, .form, true⟩ name req r (.leaf (.obj sprops rq addl)) =
         match makeObject fl.prim kvs sprops addl with
         | none => ⟨.nilObj, false, some .parse⟩
-        | some res => ⟨.obj res, queryObjFound sprops kvs res, none⟩ := by
+        | some res => ⟨.obj res, objFound fl.presenceAware sprops res (queryObjFound sprops kvs res), none⟩ := by
   have hfa : fl.absentAware = false := hfl
   have hfv : ∀ l : List (Str × Str), firstVals (l.map (fun kv => (kv.1, [kv.2]))) = l := by
     intro l
@@ -515,7 +515,7 @@ theorem query_object_roundtrip (fl : Flavour) (name : Str) (req : Bool)
       decodeStyled fl ⟨.query, .form, false⟩ name req r (.leaf (.obj sprops rq addl)) =
         match makeObject fl.prim kvs sprops addl with
         | none => ⟨.nilObj, false, some .parse⟩
-        | some res => ⟨.obj res, queryObjFound sprops kvs res, none⟩ := by
+        | some res => ⟨.obj res, objFound fl.presenceAware sprops res (queryObjFound sprops kvs res), none⟩ := by
   have hne : kvs ≠ [] := by
     intro e; subst e; simp [encodable, encodableObj] at henc
   have hfree : ∀ kv ∈ kvs, ',' ∉ kv.1 ∧ ',' ∉ kv.2 := by
@@ -833,12 +833,40 @@ theorem query_obj_absent_witness :
     (decodeStyled impl p.cell p.name false r p.schema).val = .obj [] := by
   decide
 
+/-- F-C05-6 (QueryObjNoProps): a free-form map `{type: object, additionalProperties: {type: string}}` as a required
+query parameter: `?filter[name]=x` (deepObject) and `?p=k,v` (form, explode=false) decode to the object that was sent,
+yet `found` stays false — it is only ever set inside the loop over the declared properties — and the supplied
+parameter is reported missing. The same text in a header is found. -/
+theorem query_obj_noprops_witness :
+    let sch : Sch := .leaf (.obj [] [] (some { t := .string }))
+    let p : Param := ⟨⟨.query, .deepObject, true⟩, "filter".toList, true, false, sch⟩
+    let r : Req := { query := [("filter[name]".toList, ["x".toList])] }
+    let p2 : Param := ⟨⟨.query, .form, false⟩, ['p'], true, false, sch⟩
+    let r2 : Req := { query := [(['p'], ["k,v".toList])] }
+    let p3 : Param := ⟨⟨.header, .simple, false⟩, ['p'], true, false, sch⟩
+    QueryObjNoProps p = true ∧ validateParameter p r = .missing ∧ validateSpec p r = .accept ∧
+    decodeStyled impl p.cell p.name true r sch = ⟨.obj [("name".toList, .str ['x'])], false, none⟩ ∧
+    QueryObjNoProps p2 = true ∧ validateParameter p2 r2 = .missing ∧ validateSpec p2 r2 = .accept ∧
+    decodeStyled impl p2.cell p2.name true r2 sch = ⟨.obj [(['k'], .str ['v'])], false, none⟩ ∧
+    QueryObjNoProps p3 = false ∧ validateParameter p3 { header := some ["k,v".toList] } = .accept := by
+  decide
+
+/-- outside the class (some property is declared, or the flag is the code's) `found` is the code's own computation -/
+theorem objFound_partial {β γ : Type} (pa : Bool) (sprops : List (Str × β)) (val : List (Str × γ)) (cf : Bool)
+    (h : pa = false ∨ sprops ≠ []) : objFound pa sprops val cf = cf := by
+  unfold objFound
+  rcases h with h | h
+  · simp [h]
+  · cases sprops with
+    | nil => contradiction
+    | cons a b => simp
+
 /-- outside the class (a declared property is present, or the object has an additionalProperties schema, or the
 cell is not query/form/explode) the two flavours of `queryObj` coincide -/
-theorem queryObj_absent_partial (prim : PT → Str → PR) (name : Str) (st : Sty) (ex : Bool) (r : Req)
+theorem queryObj_absent_partial (prim : PT → Str → PR) (pa : Bool) (name : Str) (st : Sty) (ex : Bool) (r : Req)
     (sprops : List (Str × PS)) (addl : Option PS)
     (h : ex = false ∨ addl.isSome = true ∨ (firstVals r.query).any (fun kv => hasKey kv.1 sprops) = true) :
-    queryObj prim true name st ex r sprops addl = queryObj prim false name st ex r sprops addl := by
+    queryObj prim true pa name st ex r sprops addl = queryObj prim false pa name st ex r sprops addl := by
   unfold queryObj
   rcases h with h | h | h
   · simp [h]
